@@ -20,7 +20,7 @@ NT_RULE = ('history = initial (breakpoints, slopes) + <=6 insert/pop/reload oper
            'canonical JSON of the history')
 REQUIRED_ORACLES = ['P1', 'P2', 'P3', 'P0', 'INV']
 REQUIRED_CLASSES = ['insert:below_second', 'insert:between', 'insert:equal', 'insert:above_last',
-                    'pop:0', 'pop:inner', 'pop:last', 'reload', 'eval:on_break', 'eval:beyond_last']
+                    'pop:0', 'pop:inner', 'pop:last', 'reload', 'reload_dict', 'eval:on_break', 'eval:beyond_last']
 REQUIRED_PROBES = ['PiecewiseCovEffect.insert', 'PiecewiseCovEffect.pop',
                    'PiecewiseCovEffect._set_intercepts', 'PiecewiseCovEffect.get_UoRT']
 ASSUMPTIONS = ['breakpoints in [0,1], first one 0, initial list strictly ascending; pop index in '
@@ -72,6 +72,8 @@ def directed(tier):
               'xs': ev, 'Ts': [298.15]})
     D.append({'intervals': [0.0, 1.0], 'slopes': [1.0, 2.0], 'ops': [['insert', 1.0, 3.0], ['reload']],
               'xs': ev, 'Ts': [298.15]})
+    D.append(dict(base, ops=[['reload_dict'], ['insert', 0.45, 5.0], ['pop', 1]], xs=ev, Ts=[300.0]))
+    D.append(dict(base, ops=[['insert', 0.2, 1.0], ['reload_dict'], ['pop', 2], ['insert', 0.9, 4.0]], xs=ev, Ts=[300.0]))
     return D
 
 
@@ -82,7 +84,7 @@ def generate(rng, tier):
     cur = list(bps)
     ops = []
     for _ in range(rng.randint(0, 6)):
-        kind = rng.choices(['insert', 'pop', 'reload'], [5, 3, 1])[0]
+        kind = rng.choices(['insert', 'pop', 'reload', 'reload_dict'], [5, 3, 1, 1])[0]
         if kind == 'insert':
             where = rng.choice(['below_second', 'between', 'equal', 'above_last', 'any'])
             if where == 'below_second' and len(cur) > 1 and cur[1] > 0.002:
@@ -107,7 +109,7 @@ def generate(rng, tier):
             if i != 0:
                 cur.pop(i)
         else:
-            ops.append(['reload'])
+            ops.append([kind])
     xs = [0.0, _r(rng, 0, 1.3), _r(rng, 0, 1.3), _r(rng, 0, 1.3), 1.0]
     xs += rng.sample(cur, min(len(cur), 3))
     xs.append(min(1.3, cur[-1] + _r(rng, 0.0, 0.3)))
@@ -212,7 +214,12 @@ def run_case(spec, ctx):
         return
     if not _observe(ctx, obj, pairs, spec, 'init'):
         return
+    shadows = []      # (object, pairs) left behind by a dict reload: later edits of the copy must not reach them
     for op in spec['ops']:
+        for k_, (sh_obj, sh_pairs) in enumerate(shadows):
+            if not _observe(ctx, sh_obj, sh_pairs, spec, 'shadow_of_dict_reload'):
+                shadows.pop(k_)
+                break
         if op[0] == 'insert':
             _, x, s = op
             bps = [p[0] for p in pairs]
@@ -252,6 +259,18 @@ def run_case(spec, ctx):
             pairs = cur
             if not _observe(ctx, obj, pairs, spec, kind):
                 return
+        elif op[0] == 'reload_dict':
+            # reload straight from the dictionary (no JSON text in between): the copy must be independent
+            ctx.cls('reload_dict')
+            new = ctx.call('P3', {'step': 'from_dict(to_dict)'}, lambda o: PiecewiseCovEffect.from_dict(o.to_dict()), obj)
+            if new is core.NOVALUE:
+                return
+            if not ctx.check('P3', isinstance(new, PiecewiseCovEffect), {'step': 'class', 'via': 'dict'}):
+                return
+            shadows.append((obj, list(pairs)))
+            obj = new
+            if not _observe(ctx, obj, pairs, spec, 'reload_dict'):
+                return
         elif op[0] == 'reload':
             ctx.cls('reload')
             before = [(x, obj.get_UoRT(x=x, T=spec['Ts'][0])) for x in spec['xs']]
@@ -270,3 +289,5 @@ def run_case(spec, ctx):
             obj = new
             if not _observe(ctx, obj, pairs, spec, 'reload'):
                 return
+    for sh_obj, sh_pairs in shadows:
+        _observe(ctx, sh_obj, sh_pairs, spec, 'shadow_of_dict_reload')
